@@ -11,11 +11,17 @@
    proved-sound checker check_C17 (value prescribed by the core differs / value where an
    exception is due / exception where a value is due / PanicException or abort where the core
    does not panic); DIFF = model and implementation disagree otherwise (kind of exception,
-   oracle entry missing, history dependence of a core result). *)
+   oracle entry missing, history dependence of a core result, lazy and eager reading of a scanner differ).
+   Every call is also run through Pyglue_model.run_call_lazy (scanners as lazy state over the live sequence
+   object); `mt` (thread) ops are judged from the worker's own comparison of concurrent and sequential
+   results. *)
 module BZ = Z
 open Pyglue_model
 
 exception Miss of string
+
+(* the core operation (name of the oracle entry) that was last seen to panic *)
+let last_panic : string ref = ref ""
 
 (* ------------------------------------------------------------------ numbers *)
 let rec nat_of_int n = if n <= 0 then O else S (nat_of_int (n - 1))
@@ -89,7 +95,7 @@ let rec parse_pv (s : string) (i : int) : pyval * int =
         | 'y' -> PBytes (zl (bytes_of_hex body))
         | _ -> PRef (nat_of_int (int_of_string body)) in
       (v, j + 1)
-  | ('L' | 'U' | 'D') as c ->
+  | ('L' | 'U' | 'D' | 'G') as c ->
       let rec items i acc =
         if s.[i] = ')' then (List.rev acc, i + 1)
         else let (v, i') = parse_pv s i in items i' (v :: acc) in
@@ -97,6 +103,7 @@ let rec parse_pv (s : string) (i : int) : pyval * int =
       (match c with
        | 'L' -> (PList l, i')
        | 'U' -> (PTuple l, i')
+       | 'G' -> (PGen l, i')
        | _ ->
            let rec pairs = function a :: b :: r -> (a, b) :: pairs r | _ -> [] in
            (PDict (pairs l), i'))
@@ -195,7 +202,9 @@ let render_result (r : (string, string, string, string, string) result) : string
 (* ------------------------------------------------------------------ the core library = oracle table *)
 let make_core (tbl : (string, string) Hashtbl.t) : (string, string, string, string, string, string) core =
   let find key = match Hashtbl.find_opt tbl key with Some v -> v | None -> raise (Miss key) in
-  let cres key conv = match find key with "P" -> CPanic | "E" -> CErr | v -> COk (conv v) in
+  let cres key conv = match find key with
+    | "P" -> (last_panic := (match String.index_opt key '~' with Some i -> String.sub key 0 i | None -> key)); CPanic
+    | "E" -> CErr | v -> COk (conv v) in
   let id x = x in
   let zlist v = List.map z_of_string (split ',' v) in
   let after_colon v = match String.index_opt v ':' with Some i -> String.sub v (i + 1) (String.length v - i - 1) | None -> v in
@@ -301,7 +310,7 @@ let file_of_mode mode data : file_arg =
   let bytes = zl raw in
   let num () = int_of_string (String.sub mode 2 (String.length mode - 2)) in
   match mode with
-  | "p" | "b" -> FileData bytes
+  | "p" | "b" | "pb" | "pP" -> FileData bytes      (* path as str / bytes / pathlib.Path *)
   | "q" | "e" -> FileMissing
   | "x" -> FileNoRead
   | "t" | "fx" -> FileNotBytes
@@ -390,9 +399,19 @@ let show_outcome = function
   | PyExc e -> "E:" ^ exc_name e
   | Panic -> "P"
 
+(* a continued iteration as the worker drives it: at most 3 more items after the first one that is not a value *)
+let cut_items (l : 'a outcome list) : 'a outcome list =
+  let rec cut seen k = function
+    | [] -> []
+    | x :: r ->
+        let bad = (match x with Value _ -> false | _ -> true) in
+        if seen then (if k >= 3 then [] else x :: cut true (k + 1) r)
+        else x :: cut bad 0 r in
+  cut false 0 l
+
 let kind_of want got =
   match want, got with
-  | Panic, Panic -> "panic core-also-panics"
+  | Panic, Panic -> "panic core-also-panics core-call=" ^ !last_panic
   | _, Panic -> "panic"
   | Value _, Value _ -> "value-mismatch"
   | Value _, PyExc _ -> "exception-for-value"
@@ -447,6 +466,8 @@ let () =
              if !abc <> dna ^ "/" ^ prot then set "DIFF" ("alphabet tables differ: " ^ !abc);
              let core = make_core tbl in
              let st = ref [] in
+             (* the scanners of the lazy reading (run_call_lazy): they follow the live sequence objects *)
+             let ls = ref [] in
              (* per scanner slot: hits handed out so far by the model / by Python *)
              let acc : (string, string list * string list) Hashtbl.t = Hashtbl.create 4 in
              List.iteri (fun i op ->
@@ -500,7 +521,24 @@ let () =
                                with Miss _ -> ())
                           | _ -> ())
                      | _ -> ());
-                    let (step, st') = run_call core !st c in
+                    last_panic := "";
+                    let (step0, st0) = run_call core !st c in
+                    (* a continued load: only the items the worker asked for exist afterwards *)
+                    let (step, st') = match step0, c with
+                      | Done (Value (RLoadSeq items)), KLoad (dst, _, _, _) ->
+                          let items' = cut_items items in
+                          (Done (Value (RLoadSeq items')),
+                           bind_slot (unbind st0 dst) dst
+                             (OLoaded (List.concat_map (function Value m -> [m] | _ -> []) items')))
+                      | _ -> (step0, st0) in
+                    (* the same call in the lazy reading of the scanners: a scan over the sequence object as it is
+                       now, minus the hits handed out, must give what was fixed when the scanner was made *)
+                    (match (try Some (run_call_lazy core !st !ls c) with Miss key -> set "DIFF" (where ^ " live-scanner oracle-miss " ^ short key); None) with
+                     | Some ((lstep, _), ls') ->
+                         ls := ls';
+                         if lstep <> step0 then
+                           set "DIFF" (where ^ " live scanner: a scan of the sequence object as it is now does not continue the hits fixed when the scanner was made")
+                     | None -> ());
                     st := st';
                     (match step, o with
                      | _, None -> set "DIFF" (where ^ " no observation")
@@ -535,6 +573,10 @@ let () =
                            else Value x in
                          let want_items = List.map (function
                              | Value m -> Value (render_motif m) | PyExc e -> PyExc e | Panic -> Panic) items in
+                         (* the worker asks for at most 3 more items after the first exception it sees; the core
+                            reader was driven 3 items beyond the first *reader* error, which may come later (a record
+                            that only the conversion refuses, e.g. TRANSFAC without counts, is no reader error) *)
+                         let want_items = cut_items want_items in
                          let gi = List.map canon got_items in
                          if List.length gi <> List.length want_items then
                            set "PROPFAIL" (Printf.sprintf "%s load-items-mismatch core=%d items python=%d items: %s" where
